@@ -79,6 +79,9 @@ namespace vh {
   struct OtherC {
     int o = 3;
   };
+  struct TypeA {};
+  struct TypeB {};
+  struct TypeC {};
 
   struct Env {
     struct Resetter {
@@ -196,7 +199,26 @@ namespace vh {
         return "{\"live\":" + std::to_string(Tk::live()) + ",\"constructed\":" + std::to_string(Tk::reg().constructed) + ",\"destroyed\":"
             + std::to_string(Tk::reg().destroyed) + ",\"uaf\":" + std::to_string(Tk::touched_after_destroy()) + "}";
       }
-      (void)st;
+      if (op == "add_fn") {
+        // a C++ function of arity 0 returning its serial; every such lambda has the same C++ type, so a second
+        // registration under the same name is a conflict exactly like a redefinition from script
+        const int k = static_cast<int>(st.num("k", 0));
+        Outcome o = classify(chai, [&]() -> Boxed_Value {
+          chai.add(fun([k]() { return k; }), st.str("name"));
+          return Boxed_Value();
+        });
+        return "{\"oc\":" + jstr(o.oc) + ",\"ex\":" + jstr(o.ex) + "}";
+      }
+      if (op == "add_type") {
+        const std::string name = st.str("name");
+        Outcome o = classify(chai, [&]() -> Boxed_Value {
+          if (name == "TA") { chai.add(user_type<TypeA>(), name); }
+          else if (name == "TB") { chai.add(user_type<TypeB>(), name); }
+          else { chai.add(user_type<TypeC>(), name); }
+          return Boxed_Value();
+        });
+        return "{\"oc\":" + jstr(o.oc) + ",\"ex\":" + jstr(o.ex) + "}";
+      }
       throw std::runtime_error("unknown step op " + op);
     }
   };
